@@ -97,8 +97,21 @@ impl<'a, 'b> H<'a, 'b> {
         let var = |inner: &str| format!("{} {} {}", d.vs, inner, d.ve);
         let x = self.rng.below(n);
         let fresh = format!("zz_new{}.html", self.rng.below(3));
-        let kind = self.rng.below(15);
+        let kind = self.rng.below(16);
         Some(match kind {
+            15 => {
+                // `break` / `continue` must not cross a capture boundary: [capture >] for >
+                // capture > break. Accepting it lets the jump skip EndCapture (seeded change C07c).
+                let kw = self.rng.pick(&["break", "continue"]);
+                let inner = match self.rng.below(3) {
+                    0 => format!("{}a{}b{}", tag("set zzx"), tag(kw), tag("endset")),
+                    1 => format!("{}a{}b{}", tag("filter upper"), tag(kw), tag("endfilter")),
+                    _ => format!("{}a{}{}{}b{}", tag("set zzx"), tag("if true"), tag(kw), tag("endif"), tag("endset")),
+                };
+                let lp = format!("{}{}{}", tag("for zzi in [1, 2]"), inner, tag("endfor"));
+                let whole = if self.rng.chance(1, 2) { format!("{}{}{}tail", tag("filter upper"), lp, tag("endfilter")) } else { format!("{}tail", lp) };
+                ((self.name(x), format!("{}{}", self.current[x], whole)), "break-across-capture")
+            }
             0 => {
                 let mut s = self.current[x].clone();
                 s.push_str(&tag("if"));
@@ -433,7 +446,7 @@ pub fn generate(seed: u64, tier: &str, property: &str) -> RegScenario {
             };
             h.push(Op::AutoescapeOn { suffixes: s }, None, false);
         } else if roll < 67 {
-            h.push(Op::SetDelimsLate { delims: Delims::set(rng.range(0, 5)) }, Some("late-set-delimiters"), false);
+            h.push(Op::SetDelimsLate { delims: Delims::set(rng.below(Delims::N_SETS)) }, Some("late-set-delimiters"), false);
         } else if roll < 71 {
             h.push(Op::SetPrefixesLate { prefixes: vec!["late/".to_string()] }, Some("late-set-fallback-prefixes"), false);
         } else if roll < 75 && !cloned {
